@@ -105,7 +105,19 @@ def replaceChildren (s : Forest) (c : Nat) (removed new : List Nat) : Forest × 
     let s3 : Forest := { r.1 with children := upd r.1.children c old }
     (sync (s3.setParents removed (some c)) c, false)
 
-/-- `coll.children = objs`: `removed = list(self._children)` -/
+/-- a value assigned to `children`: a list / tuple of entries, or a bare value -/
+inductive ChildrenArg where
+  | list (objs : List Nat)
+  | bare (x : Nat)
+  deriving Repr
+
+/-- `if not isinstance(children, (list, tuple)): children = [children]` (repo fix 045b334): a bare object is a list
+of one; a bare value that is no object (`5`, `None`) reaches `add` as an entry and is refused there -/
+def ChildrenArg.toList : ChildrenArg → List Nat
+  | .list objs => objs
+  | .bare x => [x]
+
+/-- `coll.children = objs` (after the bare-value wrapping): `removed = list(self._children)` -/
 def setChildren (s : Forest) (c : Nat) (objs : List Nat) : Forest × Bool :=
   s.replaceChildren c (s.children c) objs
 
@@ -114,14 +126,20 @@ def flat (s : Forest) : Nat → Nat → List Nat
   | 0, _ => []
   | k + 1, o => if s.kind o = .coll then (s.children o).flatMap (flat s k) else [o]
 
-/-- `format_obj_input(objs, allow=k)` as the typed setters call it — BEFORE anything is modified; ids that are no
-objects (`≥ n`) stand for entries of any other type.  `none` = it raises.  For sources / sensors every entry that is
-neither a source nor a sensor is iterated (a Collection yields its children, anything else raises), then the
-unwanted type is filtered out; for collections nothing is iterated and `filter_objects` silently drops every
-entry that is not a Collection — also entries that are no magpylib objects at all. -/
+/-- `_refuse_non_objects(collections)` (repo fix 045b334): every entry of the (possibly nested) list goes through
+`check_format_input_obj([obj], typechecks=True)`, which raises for anything that is no Magpylib object; ids that are
+no objects (`≥ n`) stand for such entries.  `true` = nothing is refused. -/
+def onlyObjects (s : Forest) (objs : List Nat) : Bool := objs.all (fun o => o < s.n)
+
+/-- what the typed setters do with their argument BEFORE anything is modified; `none` = it raises.
+sources / sensors: `format_obj_input(objs, allow=k)` — every entry that is neither a source nor a sensor is
+iterated (a Collection yields its children, anything else raises), then the unwanted type is filtered out.
+collections: `_refuse_non_objects(objs)` first (since 045b334 an entry that is no Magpylib object is REFUSED; before
+it was silently dropped), then `format_obj_input(objs, allow="collections")`, which iterates nothing and keeps the
+Collections. -/
 def formatTyped (s : Forest) (k : Kind) (objs : List Nat) : Option (List Nat) :=
   match k with
-  | .coll => some (objs.filter fun o => decide (o < s.n) && decide (s.kind o = .coll))
+  | .coll => if s.onlyObjects objs then some (objs.filter fun o => s.kind o = .coll) else none
   | _ => if objs.all (fun o => o < s.n) then some ((objs.flatMap (s.flat (s.n + 1))).filter fun o => s.kind o = k)
          else none
 
